@@ -132,6 +132,8 @@ def run(ctx):
     from . import c10 as _c10
     _reuse(ctx, lambda c: _c10.own_rule(c, fields=SERIES, strict=True), ("C10.own",), "C08own", "ownership rule shared with C10: the recorded increments are summed again by every later reader (a resumed run, "
            "a second look at the history); an accumulation that happens inside the first recorded item changes the series it is the sum of")
+    _reuse(ctx, _c11.run, ("C11.restore",), "C08res", "restore rule shared with C11: every recorded increment belongs to the recorded population before it; a restore that trims or rewrites the "
+           "restored history shifts that pairing for every later step", only=lambda f: f.key.endswith("history|mutated"))
     _reuse(ctx, _c11.run, ("C11.cut",), "C08cut", "cut-point rule shared with C11: a checkpoint taken before the iteration's ratio is recorded makes a resumed run drop that step from the evidence")
     S = repo.cls("aspire.samples:SMCSamples")
     N = T.app("len", self_attr("x"))
